@@ -57,3 +57,29 @@ package plan
 //@   ensures [usable] result != nil
 //@ func ReadFromFile
 //@   ensures [usable] result1 == nil ==> result0 != nil
+
+// (*Executor).Checkpoint (the real visitor of the Checkpoint operation; it is what makes a re-run
+// of the plan after a crash INSIDE the operation safe): a WAL left at <db>-wal by an interrupted
+// run is looked for and checkpointed on EVERY path, before anything else is decided - also when no
+// source WAL is left; every source WAL is moved to <db>-wal and checkpointed into <db> before the
+// next one moves in; nil means no moved WAL is left un-checkpointed.
+//@ func (*Executor) Checkpoint
+//@   assigns **
+//@   ghost var leftoverSeen bool = false
+//@   ghost var leftoverThere bool = false
+//@   ghost var leftoverDone bool = false
+//@   ghost var pending bool = false
+//@   ghost var nCkpt int = 0
+//@   ghost update after @os.Stat: leftoverThere = ite(!leftoverSeen && arg0 == dbPath + "-wal", result1 == nil, leftoverThere)
+//@   ghost update after @os.Stat: leftoverSeen = (leftoverSeen || arg0 == dbPath + "-wal")
+//@   assert @db.CheckpointRemove: [checkpoints-into-the-plan-database] arg0 == dbPath && leftoverSeen
+//@   ghost update after @db.CheckpointRemove: leftoverDone = (leftoverDone || (result == nil && !pending))
+//@   ghost update after @db.CheckpointRemove: pending = (pending && result != nil)
+//@   assert @os.Rename: [leftover-finished-before-a-new-wal-moves-in] leftoverSeen && (leftoverThere ==> leftoverDone) && !pending
+//@   assert @os.Rename: [source-wal-moves-to-the-database-wal] arg0 == wal && arg1 == dbPath + "-wal"
+//@   ghost update after @os.Rename: pending = (result == nil)
+//@   loop 1 invariant [leftover-settled] !pending && leftoverSeen && (leftoverThere ==> leftoverDone)
+//@   loop 2 invariant [one-at-a-time] !pending && leftoverSeen && (leftoverThere ==> leftoverDone)
+//@   ensures [leftover-looked-for-on-every-path] leftoverSeen
+//@   ensures [nil-means-leftover-finished] (result1 == nil && leftoverThere) ==> leftoverDone
+//@   ensures [nil-means-nothing-left-half-done] result1 == nil ==> !pending
